@@ -2,12 +2,12 @@
 """Apply every seeded mutation to /repo in turn (always reverted), run all claimed checks (quick tier),
 and record which checks report a VIOLATION.  Writes seeded/MATRIX.json and updates meta.json 'caught_by'."""
 import json, os, subprocess, sys
-sys.path.insert(0, '/verif')
+ROOT = os.environ.get('VERIF_ROOT', '/verif'); sys.path.insert(0, ROOT)
 from mokalint.props import PROPERTIES
-sys.path.insert(0, '/verif/tools')
+sys.path.insert(0, ROOT + '/tools')
 from _runall import run_all, REPO
 only = sys.argv[1:]
-seeded = '/verif/seeded'
+seeded = ROOT + '/seeded'
 res = {}
 assert subprocess.run(['git', '-C', REPO, 'diff', '--quiet']).returncode == 0, '/repo dirty'
 for d in sorted(os.listdir(seeded)):
